@@ -82,3 +82,28 @@ fn schedule_after_drop_is_an_error() {
     drop(exec);
     assert!(sched.schedule(async {}).is_err());
 }
+
+/// schedule() from inside the executor's own callback, everything completes within that batch, an idle dispatch
+/// follows, and then a further schedule(): its future must still be polled (the wake-up bookkeeping must not be left
+/// in the "already notified" state by a dispatch that found nothing to do)
+#[test]
+fn schedule_after_a_batch_that_scheduled_from_its_callback_and_an_idle_dispatch() {
+    use calloop::futures::executor;
+    let mut el: EventLoop<Vec<u32>> = EventLoop::try_new().unwrap();
+    let (exec, sched) = executor::<u32>().unwrap();
+    let s2 = sched.clone();
+    el.handle().insert_source(exec, move |v, _, got: &mut Vec<u32>| {
+        got.push(v);
+        if v == 1 { s2.schedule(async { 2 }).unwrap(); }
+    }).unwrap();
+    sched.schedule(async { 1 }).unwrap();
+    let mut got = vec![];
+    let t = Instant::now();
+    while got.len() < 2 { el.dispatch(Duration::from_millis(50), &mut got).unwrap(); assert!(t.elapsed() < Duration::from_secs(3), "{:?}", got); }
+    // idle dispatches: nothing is queued, nothing is active
+    for _ in 0..3 { el.dispatch(Duration::from_millis(10), &mut got).unwrap(); }
+    sched.schedule(async { 3 }).unwrap();
+    let t = Instant::now();
+    while got.len() < 3 { el.dispatch(Duration::from_millis(50), &mut got).unwrap(); assert!(t.elapsed() < Duration::from_secs(3), "a future scheduled after an idle dispatch was never polled: {:?}", got); }
+    assert_eq!(got, vec![1, 2, 3]);
+}
